@@ -6,12 +6,13 @@ import itertools
 TR = {'o': 'cleared', 'x': 'failed', 'p': 'passed', 'r': 'retired'}
 LET = {'o': 'o', 'x': 'x', 'p': '-', 'r': 'r'}
 
-def new_comp(athlib, float_heights=False, scale=100):
+def new_comp(athlib, float_heights=False, scale=100, int_bibs=False):
     """float_heights: bar heights are passed as Python floats (as the unit tests do) instead of Decimal;
     scale: the integer heights of the ops are 1/scale metres (1000: millimetre heights, e.g. converted imperial marks)"""
     c = athlib.HighJumpCompetition()
     c._verif_float = float_heights
     c._verif_scale = scale
+    c._verif_intbibs = int_bibs          # bibs handed over as numbers (7) instead of text ('7'): a caller's choice the library keeps as given
     return c
 
 _SCALE = [100]
@@ -25,12 +26,12 @@ def apply_op(athlib, c, op):
             c.to_matrix(); c.trials; c.remaining; [j.place for j in c.jumpers]
         elif op[0] == 'add':
             if op[1] == 0: c.add_jumper()                      # no bib given: the library files the athlete under its default bib '0'
-            else: c.add_jumper(bib=str(op[1]))
+            else: c.add_jumper(bib=op[1] if getattr(c, '_verif_intbibs', False) else str(op[1]))
         elif op[0] == 'bar':
             sc = getattr(c, '_verif_scale', 100)
             c.set_bar_height(op[1] / float(sc) if getattr(c, '_verif_float', False) else D(op[1]) / sc)
         else:
-            getattr(c, TR[op[2]])(str(op[1]))
+            getattr(c, TR[op[2]])(op[1] if getattr(c, '_verif_intbibs', False) else str(op[1]))
         return 'ok'
     except athlib.RuleViolation:
         return 'rule'
@@ -49,7 +50,7 @@ def snap(c):
     for j in c.jumpers:
         js.append('%s:%s:%d:%s' % (j.bib, j.place if j.place != '' else '-', _c(j.highest_cleared),
                                    '/'.join(j.attempts_by_height)))
-    rem = ','.join(j.bib for j in c.remaining)
+    rem = ','.join(str(j.bib) for j in c.remaining)
     acts = []
     for a, v in c.actions:
         if a == 'add_jumper': acts.append('a%s' % v.get('bib', '0'))
@@ -74,18 +75,18 @@ def fmt_ops(ops):
         else: out.append('%s %d' % (TR[op[2]], op[1]))
     return out
 
-def replay_py(ops, float_heights=False, scale=100):
+def replay_py(ops, float_heights=False, scale=100, int_bibs=False):
     """python statements that rebuild the history on the real object"""
     L = ['from decimal import Decimal as D', 'c = athlib.HighJumpCompetition()', 'log = []', 'def _do(f, *a):',
          '    try: f(*a); log.append("ok")', '    except Exception as e: log.append(type(e).__name__)']
     for op in ops:
         if op[0] == 'peek': L.append("_do(c.to_matrix)")
         elif op[0] == 'add' and op[1] == 0: L.append("_do(lambda: c.add_jumper())")
-        elif op[0] == 'add': L.append("_do(lambda: c.add_jumper(bib=%r))" % str(op[1]))
+        elif op[0] == 'add': L.append("_do(lambda: c.add_jumper(bib=%r))" % (op[1] if int_bibs else str(op[1])))
         elif op[0] == 'bar' and float_heights: L.append("_do(c.set_bar_height, %r)" % (op[1] / float(scale)))
         elif op[0] == 'bar' and scale != 100: L.append("_do(c.set_bar_height, D(%r) / %d)" % (str(op[1]), scale))
         elif op[0] == 'bar': L.append("_do(c.set_bar_height, D(%r))" % ('%.2f' % (op[1] / 100)))
-        else: L.append("_do(c.%s, %r)" % (TR[op[2]], str(op[1])))
+        else: L.append("_do(c.%s, %r)" % (TR[op[2]], op[1] if int_bibs else str(op[1])))
     L.append("result = (log, c.state, [(j.bib, j.place, str(j.highest_cleared), j.attempts_by_height) for j in c.jumpers])")
     return '\n'.join(L)
 
